@@ -86,9 +86,9 @@ def known_findings():
 
 # ------------------------------------------------------------------------------------------------ scenarios -> traces -> verdicts
 
-def gen_scenarios(family, n, seed, out, max_t=5, max_r=4, max_len=3, steps=5, fixed=None):
+def gen_scenarios(family, n, seed, out, max_t=5, max_r=4, max_len=3, steps=5, fixed=None, wide=0.2):
     cmd = [os.path.join(BIN, "pie_run"), "gen", "--family", family, "--n", str(n), "--seed", str(seed), "--out", out,
-           "--max-t", str(max_t), "--max-r", str(max_r), "--max-len", str(max_len), "--steps", str(steps)]
+           "--max-t", str(max_t), "--max-r", str(max_r), "--max-len", str(max_len), "--steps", str(steps), "--wide", str(wide)]
     if fixed:
         cmd += ["--fixed", "%d,%d,%d" % fixed]
     sh(cmd, timeout=600)
@@ -180,14 +180,14 @@ def write_evidence(prop, tier, seed, level, coverage, wall_s, violations, assump
 PIE_PROPS = {
     "C01": {"fams": [("WF", 300, 2000, {}), ("WF", 100, 800, {"max_t": 7, "max_r": 5, "steps": 6})], "curated": ["known_findings.jsonl"], "design": ["td"]},
     "C02": {"fams": [("WF", 250, 2000, {}), ("WF", 80, 800, {"max_t": 7, "max_r": 5, "steps": 6})], "curated": ["f1_same_target_twice.jsonl"], "design": ["td"]},
-    "C03": {"fams": [("WF", 150, 2000, {"steps": 6}), ("WF", 400, 2000, {"max_t": 8, "max_r": 5, "steps": 7})], "curated": ["known_findings.jsonl"], "design": ["bu"]},
-    "C04": {"fams": [("WF", 150, 2000, {"steps": 6}), ("WF", 400, 2000, {"max_t": 8, "max_r": 5, "steps": 7})], "curated": [], "design": ["bu"]},
+    "C03": {"fams": [("WF", 150, 2000, {"steps": 6}), ("WF", 300, 2000, {"max_t": 8, "max_r": 5, "steps": 7}), ("WF", 150, 1500, {"max_t": 8, "steps": 7, "wide": 1.0})], "curated": ["known_findings.jsonl"], "design": ["bu"]},
+    "C04": {"fams": [("WF", 150, 2000, {"steps": 6}), ("WF", 300, 2000, {"max_t": 8, "max_r": 5, "steps": 7}), ("WF", 150, 1500, {"max_t": 8, "steps": 7, "wide": 1.0})], "curated": [], "design": ["bu"]},
     "C05": {"fams": [("INJ", 150, 2000, {}), ("INJ", 50, 700, {"max_t": 7, "max_r": 5})], "curated": [], "design": ["inj"]},
     "C06": {"fams": [("INJ", 120, 1500, {}), ("WF", 60, 600, {}), ("WF", 80, 600, {"max_t": 7, "max_r": 5, "steps": 6})], "curated": [], "design": ["inj"]},
     "C07": {"fams": [("INJ", 150, 2000, {}), ("INJ", 50, 700, {"max_t": 7, "max_r": 5})], "curated": [], "design": ["inj"]},
     "C08": {"fams": [("WF", 90, 1200, {}), ("TWOCHK", 40, 600, {}), ("ABORT", 50, 800, {})], "curated": ["k2_two_checkers.jsonl"], "design": ["td"]},
     "C09": {"fams": [("WF", 250, 2000, {}), ("WF", 80, 800, {"max_t": 7, "max_r": 5, "steps": 6})], "curated": [], "design": ["td"]},
-    "C15": {"fams": [("IDENT", 110, 1500, {})], "curated": [], "design": []},
+    "C15": {"fams": [("IDENT", 250, 1500, {"steps": 6})], "curated": [], "design": []},
     "C17": {"fams": [("WF", 70, 1000, {}), ("INJ", 30, 500, {}), ("FAULT", 30, 300, {}), ("ABORT", 20, 300, {})], "curated": [], "design": []},
     "C18": {"fams": [("FAULT", 130, 1800, {}), ("FAULT", 40, 600, {"max_t": 7, "max_r": 5, "steps": 6})], "curated": [], "design": []},
     "C19": {"fams": [("ABORT", 120, 1400, {}), ("ABORT", 60, 600, {"max_t": 7, "max_r": 5, "steps": 6}), ("INJ", 60, 600, {})], "curated": ["f2_abort_then_require.jsonl"], "design": []},
@@ -494,7 +494,7 @@ NOT_YET = {}
 
 MC_DEFAULT = dict(NT=2, NR=1, NV=2, NA=2, LEN=2, Family="WF", Writer=[0], RChks=["eq"], OChks=["eq"], WChks=["eq"],
                   Fs=[0, 2], MaxSessions=2, MaxChanges=1, MaxRoots=1, MaxBU=0, CheckLeftoverOfAborted=False,
-                  EdgeReinsertMovesToBack=False, EmitScenarios=False, Conform=False)
+                  EdgeReinsertMovesToBack=False, EmitScenarios=False, Conform=False, MidSession=False)
 
 # name -> parameter overrides.  Quick configurations finish in well under a minute each.
 MC_CONFIGS = {
@@ -507,6 +507,7 @@ MC_CONFIGS = {
     "td_2t2r_gen": dict(NR=2, Writer=[0, 2], MaxSessions=2, MaxChanges=1),
     "td_3t1r": dict(NT=3, LEN=2, Fs=[2], MaxSessions=2, MaxChanges=1),
     "td_twice": dict(LEN=3, Fs=[2], MaxSessions=2, MaxChanges=1),
+    "td_mid": dict(MidSession=True, Fs=[2], MaxSessions=2, MaxChanges=1, MaxRoots=2),
     "twochk_1t1r": dict(Family="TWOCHK", NT=1, LEN=3, RChks=["eq", "par"], Fs=[2], MaxSessions=3, MaxChanges=2),
     "twochk_2t1r": dict(Family="TWOCHK", LEN=2, RChks=["eq", "par"], OChks=["eq", "res"], Fs=[2], MaxSessions=2, MaxChanges=1),
     "td_2t2r_wide": dict(NR=2, Writer=[0, 0], RChks=["eq", "par"], MaxSessions=2, MaxChanges=1),
@@ -538,7 +539,7 @@ MC_CONFIGS = {
 # behaviours are replayed on the implementation
 PROP_DESIGN = {
     "C01": (["td_3t1r", "td_gen"], ["td_2t1r", "td_2t2r_gen", "td_2t2r_wide"], "sim_wf"),
-    "C02": (["td_twice", "td_3t1r"], ["td_2t1r", "td_2t2r_wide"], "sim_wf"),
+    "C02": (["td_twice", "td_mid", "td_3t1r"], ["td_2t1r", "td_2t2r_wide"], "sim_wf"),
     "C03": (["bu_2t1r", "bu_2t1r_mixed"], ["bu_2t2r_gen", "bu_3t1r"], "sim_wf"),
     "C04": (["bu_2t1r", "bu_2t1r_mixed"], ["bu_2t2r_gen", "bu_3t1r"], "sim_wf"),
     "C05": (["inj_2t2r"], ["inj_2t2r_bu"], "sim_inj"),
@@ -583,11 +584,11 @@ def run_mc(name, overrides=None, workers=None, timeout=1800, simulate=None, extr
     with open(cfg, "w") as f:
         f.write("SPECIFICATION Spec\nCONSTANTS\n")
         for k in ("NT", "NR", "NV", "NA", "LEN", "Family", "MaxSessions", "MaxChanges", "MaxRoots", "MaxBU",
-                  "CheckLeftoverOfAborted", "EdgeReinsertMovesToBack", "EmitScenarios", "Conform"):
+                  "CheckLeftoverOfAborted", "EdgeReinsertMovesToBack", "EmitScenarios", "Conform", "MidSession"):
             f.write("  %s = %s\n" % (k, tla_val(params[k])))
         for k in ("Writer", "RChks", "OChks", "WChks", "Fs"):
             f.write("  %s <- MC%s\n" % (k, k))
-        f.write("INVARIANTS NoViolation BoundedStack ConsistentHaveOutput StoreWellFormed RanksRespectEdges KnownOnly %s\nVIEW view\nCHECK_DEADLOCK FALSE\n" % extra_inv)
+        f.write("INVARIANTS NoViolation BoundedStack ConsistentHaveOutput StoreWellFormed RanksRespectEdges KnownOnly Progress %s\nVIEW view\nCHECK_DEADLOCK FALSE\n" % extra_inv)
     md = os.path.join(d, "md_" + name)
     shutil.rmtree(md, ignore_errors=True)
     e = dict(os.environ)
@@ -729,6 +730,42 @@ def run_dagpk(max_nodes, max_ops, data, emit=False, simulate=None, timeout=3000,
     return r
 
 
+def run_dagind(max_nodes, all_orders, data, timeout=3000, tag="i4"):
+    """Inductive step of the DagPK invariants (DagInd.tla): one step of every operation from every state over at most
+    max_nodes nodes that satisfies them, i.e. operation sequences of any length."""
+    d = os.path.join(WORK, "mc")
+    os.makedirs(d, exist_ok=True)
+    mod = "MC_DagInd_" + tag
+    with open(os.path.join(d, mod + ".tla"), "w") as f:
+        f.write("---- MODULE %s ----\nEXTENDS DagInd\n====\n" % mod)
+    cfg = os.path.join(d, mod + ".cfg")
+    with open(cfg, "w") as f:
+        f.write("INIT %s\nNEXT Next\nCONSTANTS\n  MaxNodes = %d\n  MaxOps = 1\n  Data = {%s}\n  ReinsertMovesToBack = FALSE\n  EmitSequences = FALSE\n"
+                % ("IndInit" if all_orders else "IndInitLex", max_nodes, ", ".join(str(x) for x in data)))
+        f.write("INVARIANTS C10_Ranks C10_Acyclic C10_Result C10_LiveAgree C11_Encodings C11_Order C11_Data C11_NoDup\n")
+        f.write("PROPERTY ResultMatches\nVIEW view\nCHECK_DEADLOCK FALSE\n")
+    md = os.path.join(d, "md_dagind_" + tag)
+    shutil.rmtree(md, ignore_errors=True)
+    e = dict(os.environ)
+    e["JAVA_TOOL_OPTIONS"] = "-Xss512m -XX:+UseParallelGC -Xmx12g -DTLA-Library=%s" % SPEC
+    t0 = time.time()
+    p = subprocess.run(["timeout", str(timeout), "tlc", "-workers", str(max(2, min(12, NCPU - 4))), "-metadir", md, "-cleanup", "-noGenerateSpecTE",
+                        "-config", cfg, mod + ".tla"], cwd=d, env=e, stdout=subprocess.PIPE, stderr=subprocess.STDOUT, universal_newlines=True)
+    shutil.rmtree(md, ignore_errors=True)
+    out = p.stdout
+    r = {"out": out, "wall_s": round(time.time() - t0, 1), "ok": "Model checking completed. No error has been found." in out,
+         "start_states": 0, "generated": 0, "distinct": 0}
+    mm = re.search(r"Finished computing initial states: (\d+) distinct", out)
+    if mm:
+        r["start_states"] = int(mm.group(1))
+    mm = re.search(r"(\d+) states generated, (\d+) distinct states found", out)
+    if mm:
+        r["generated"], r["distinct"] = int(mm.group(1)), int(mm.group(2))
+    mm = re.search(r"Invariant (\w+) is violated", out)
+    r["violated"] = mm.group(1) if mm else None
+    return r
+
+
 def run_dag_check(prop, tier, seed, replay):
     t0 = time.time()
     build_harness()
@@ -750,6 +787,15 @@ def run_dag_check(prop, tier, seed, replay):
                                     % (n, o, r["violated"], r["out"][-2500:]))
                 design.append({"name": "DagPK", "max_nodes": n, "max_ops": o, "data": data, "distinct": r["distinct"],
                                "generated": r["generated"], "wall_s": r["wall_s"]})
+            # inductive step: the invariants are preserved from every state that satisfies them (sequences of any length)
+            for (n, allo, data, tag) in [(4, True, [1, 2], "i4")] + ([(5, False, [1], "i5")] if tier == "thorough" else []):
+                r = run_dagind(n, allo, data, tag=tag)
+                if r["violated"] or not r["ok"]:
+                    raise ToolError("design-level inductive step DagInd(%d nodes) failed (independent of /repo): %s\n%s"
+                                    % (n, r["violated"], r["out"][-2500:]))
+                design.append({"name": "DagInd (inductive step of the DagPK invariants, any sequence length)", "max_nodes": n,
+                               "insertion_orders": "all" if allo else "one per edge set", "data": data, "start_states": r["start_states"],
+                               "distinct": r["distinct"], "generated": r["generated"], "wall_s": r["wall_s"]})
             # spec -> implementation: behaviours of the algorithm model replayed on the real DAG
             num = 300 if tier == "quick" else 5000
             r = run_dagpk(6, 24, [1, 2, 3], emit=True, simulate=(num, 30), tag="sim")
@@ -1030,7 +1076,7 @@ def run_conform(trace_file, dims, tag, timeout=1800):
     with open(cfg, "w") as f:
         f.write("SPECIFICATION CSpec\nCONSTANTS\n  NT = %d\n  NR = %d\n  NV = %d\n  NA = %d\n  LEN = %d\n" % (nt, nr, nv, na, ln))
         f.write('  Family = "WF"\n  MaxSessions = 1000\n  MaxChanges = 1000\n  MaxRoots = 1000\n  MaxBU = 1000\n')
-        f.write("  CheckLeftoverOfAborted = FALSE\n  EdgeReinsertMovesToBack = FALSE\n  EmitScenarios = FALSE\n  Conform = TRUE\n")
+        f.write("  CheckLeftoverOfAborted = FALSE\n  EdgeReinsertMovesToBack = FALSE\n  EmitScenarios = FALSE\n  Conform = TRUE\n  MidSession = FALSE\n")
         for k in ("Writer", "RChks", "OChks", "WChks", "Fs"):
             f.write("  %s <- MC%s\n" % (k, k))
         f.write("VIEW cview\nPOSTCONDITION AllConsumed\nCHECK_DEADLOCK FALSE\n")
@@ -1050,8 +1096,10 @@ def run_conform(trace_file, dims, tag, timeout=1800):
     sm = re.search(r"(\d+) states generated, (\d+) distinct states found", out)
     # per-action counts of the operational specification along the implementation's traces (vacuity guard)
     acts = {}
-    for am in re.finditer(r"<(\w+) line \d+, col \d+ to line \d+, col \d+ of module Pie>: (\d+):(\d+)", out):
-        acts[am.group(1)] = max(acts.get(am.group(1), 0), int(am.group(3)))
+    ai = out.find('"ACTIONS"')
+    if ai >= 0:
+        for a in re.finditer(r'<<"(\w+)",\s*(\d+)>>', out[ai:ai + 4000]):
+            acts[a.group(1)] = int(a.group(2))
     return int(mm.group(1)), int(mm.group(2)), int(mm.group(3)), {"distinct": int(sm.group(2)) if sm else 0, "generated": int(sm.group(1)) if sm else 0,
                                                                    "wall_s": round(time.time() - t0, 1), "pie_actions_taken": acts}
 
